@@ -4,7 +4,7 @@
 From Coq Require Import NArith ZArith List Bool.
 Import ListNotations.
 Require Import UV.Gen.Consts UV.Mcount.Model UV.Mcount.Forest UV.Mcount.PlainStep UV.Mcount.PlainProofs
-  UV.Mcount.Codec UV.Mcount.PlainMore UV.Mcount.Overflow UV.Mcount.Embed UV.Mcount.EmbedOver UV.Mcount.EmbedMore UV.Mcount.Check UV.Mcount.Monotone UV.Mcount.Threads UV.Mcount.ForkChild UV.Mcount.Restore UV.Mcount.Method.
+  UV.Mcount.Codec UV.Mcount.PlainMore UV.Mcount.Overflow UV.Mcount.Embed UV.Mcount.EmbedOver UV.Mcount.EmbedMore UV.Mcount.Check UV.Mcount.Monotone UV.Mcount.Threads UV.Mcount.ForkChild UV.Mcount.Restore UV.Mcount.Method UV.Mcount.OverflowCyg.
 Local Open Scope N_scope.
 
 (* Writer and readers agree on the record word: the hand-packed word of record_ret_stack decodes,
@@ -58,7 +58,7 @@ Print Assumptions C02_matching_addresses.
    height), with every call taking at least one tick and no threshold, the -pg/fentry/PLT shape records
    exactly the calls nested less deep than min(gd, ms) - deeper calls are dropped whole, and nothing else
    is changed, whatever the overflow flush of mcount_check_rstack does in between.
-   (The cygprof shape's overflow path is covered by the correspondence only.) *)
+   (The cygprof shape: C02_deeper_dropped_not_corrupted_cyg below.) *)
 Theorem C02_deeper_dropped_not_corrupted : forall gd ms f, all_timed f -> all_positive f ->
   out (fst (exec (plain 0 gd ms PG) (flat_forest f) (init, []))) = flat_map (recs 0 (N.min gd ms) 0) f.
 Proof. exact run_forest'. Qed.
@@ -164,3 +164,13 @@ Theorem C02_same_stream_for_every_method : forall c z f, heights f <= max_stack 
   out (fst (exec (cyg_of c) (flat_forest f) (init_z z, []))).
 Proof. exact method_independent_all. Qed.
 Print Assumptions C02_same_stream_for_every_method.
+
+(* The same under -finstrument-functions / XRay, where a call beyond --max-stack only counts in mtdp->idx: for any
+   --max-stack ms not above the depth limit (the default -D is far above it), any forest (no bound on its height),
+   every call taking at least one tick, no threshold: exactly the calls nested less deep than ms are recorded, deeper
+   ones are dropped whole, and the overflow flush of mcount_check_rstack (which happens once per descent below the
+   limit, never with such a counted-only call on the stack) changes nothing else. *)
+Theorem C02_deeper_dropped_not_corrupted_cyg : forall gd ms, ms <= gd -> forall f, all_timed f -> all_positive f ->
+  out (fst (exec (plain 0 gd ms CYG) (flat_forest f) (init, []))) = flat_map (recs 0 ms 0) f.
+Proof. exact run_forest_cyg. Qed.
+Print Assumptions C02_deeper_dropped_not_corrupted_cyg.
